@@ -142,6 +142,18 @@ def run(ctx):
         hs = [c for c in b.calls() if c.name == "hash"]
         ok = len(hs) == 1 and K.arg_renders(hs[0])[0] == "self.0"
         ctx.ob("R-SIB", "Serial::hash-field", ok, "Hash feeds exactly the field Eq compares (self.0)", where=b.loc)
+    # serial arithmetic happens in Serial's own functions only: nobody else assigns or mutably borrows the wrapped integer
+    # (an in-place `serial.0 += 1` elsewhere overflows at 0xFFFF_FFFF instead of wrapping), and nobody else builds a Serial
+    # from an integer it computed itself
+    K.check_field_writers(ctx, f, "R-WHO", S, "0", set(),
+                          "the wrapped integer of a Serial is never assigned or mutably borrowed outside Serial's own "
+                          "constructors (advancing a serial goes through Serial::add, which wraps)")
+    from engine.rules import aggregates_of, root_fn
+    makers = sorted({root_fn(f, bd.name) for bd, bi, si, st in aggregates_of(f, S)})
+    foreign = [m for m in makers if not (m.startswith(S + "::") or m.startswith("<%s as " % S) or
+                                         (" for %s>::" % S) in m)]
+    ctx.ob("R-WHO", "Serial:built-only-by-its-own-impls", not foreign and len(makers) >= 2,
+           "Serial(..) values are built only by functions of Serial's own impls (from, from_be, add, …)", detail={"others": foreign, "all": makers})
     # the derived/other impls must not redefine comparison differently: only one PartialOrd impl
     impls = [i for i in f.impls if i.get("adt") == S and i.get("trait") in ("std::cmp::PartialOrd", "std::cmp::Ord")]
     ctx.ob("R-SIB", "Serial:ordering-impls", len(impls) == 1 and impls[0]["trait"] == "std::cmp::PartialOrd" and not impls[0]["derived"],
